@@ -25,7 +25,9 @@ class Topo:
         self.gparent = dict(scen.get("groups", {}))
         self.sims = {s["sid"]: s for s in scen["sims"]}
         self.until = scen["until"]
-        self.conns = scen["conns"]
+        # (a `rejected` connection is a connect() call that mosaik refuses and the script handles:
+        # it does not exist)
+        self.conns = [c for c in scen["conns"] if not c.get("rejected")]
         self.max_loop = scen.get("max_loop", 100)
         self._depth = {sid: len(self.gpath(s.get("group"))) for sid, s in self.sims.items()}
         self._cd = {}
